@@ -720,9 +720,10 @@ example : ∃ s2 nd, firstRuleG (fun id s => runRuleH (exCfgH 100 [.html, .base 
       (`FlatL2`: `o0 = none → o = none` is the contrapositive of (E), `o0 = some n` fitting ⇒ `o = some n` is (S));
       PROVED for the close tag, comment, processing instruction, CDATA, declaration and for the whole matcher
       on every window that does not start an open tag (`tagRest_ext_nonopen`, `tagRest_shr_nonopen`, `extent_*`);
-      the lazy / `[^>]*` alternatives never match longer under a larger window (first terminator).  STILL OPEN:
-      (E), (S) for the open tag (`attrsK`, attribute backtracking): no counterexample in an exhaustive search over
-      1 948 717 strings (all splits); proof plan in that file.  A tag may CONTAIN a `]` (`<b c="]">`), exactly
+      the lazy / `[^>]*` alternatives never match longer under a larger window (first terminator).  SINCE PROVED
+      for the open tag too: (S) in full (`openTagK_shr`, `tagRest_shr`) and the weak form of (E) - a match under `w`
+      implies a match under `w ++ x` (`tagRest_ext_weak`) - which is what `FlatL2` needs (`extent_flatL2`); only the
+      same-extent (E) for the open tag is open (no counterexample in an exhaustive search over 1 948 717 strings).  A tag may CONTAIN a `]` (`<b c="]">`), exactly
       like an autolink `<http://a]b>` or a code span, which the development already handles for flat rules
       through laminarity of look-ahead tokens.
   Evidence for the statement: the stream `inlineh` compares whole `md.inline.parse` runs with the model on
